@@ -295,8 +295,11 @@ def finish(ctx, level="model_checking", rule="", assumptions=(), trusted=(), exh
     cov.update(ctx.extra)
     ev = {"property_id": ctx.prop, "tier": ctx.tier, "seed": ctx.seed, "level": level, "coverage": cov,
           "assumptions": list(assumptions), "wall_s": round(wall, 1), "violations": len(unknown)}
-    os.makedirs(os.path.join(VERIF, "evidence"), exist_ok=True)
-    with open(os.path.join(VERIF, "evidence", ctx.prop + ".json"), "w") as f:
+    evdir = os.path.join(VERIF, "evidence")
+    if os.environ.get("VERIF_REPO") and os.path.abspath(os.environ["VERIF_REPO"]) != "/repo":
+        evdir = os.path.join(VERIF, "work", "evidence-alt")     # runs against another checkout never touch the evidence
+    os.makedirs(evdir, exist_ok=True)
+    with open(os.path.join(evdir, ctx.prop + ".json"), "w") as f:
         json.dump(ev, f, indent=1)
     log("[done] %s tier=%s seed=%d: %d evaluations, %d states, %d violation class(es), %d known finding(s) hit, %.1fs" % (
         ctx.prop, ctx.tier, ctx.seed, ctx.evaluations, ctx.states, len(unknown), sum(1 for v in hits.values() if v), wall))
